@@ -91,6 +91,10 @@ def sd_to_doc(rng, sd):
     osn = [f"os_{rng.choice('abcdef')}{i}" for i in range(sd["nos"])]
     srvn = [f"srv_{rng.choice('abcdef')}{i}" for i in range(sd["nsrv"])]
     procn = [f"proc_{rng.choice('abcdef')}{i}" for i in range(sd["nproc"])]
+    if rng.random() < 0.3:
+        # names "can be anything": the same name may appear in several of the three lists
+        pool = [f"name{i}" for i in range(max(sd["nos"], sd["nsrv"], sd["nproc"]) + 1)]
+        osn, srvn, procn = rng.sample(pool, sd["nos"]), rng.sample(pool, sd["nsrv"]), rng.sample(pool, sd["nproc"])
 
     def num(x):
         if float(x) == int(x) and rng.random() < 0.6:
@@ -545,6 +549,38 @@ def env_enforces(rng, scenario, sd, model_wire, nops):
     return (d[0], d[1], ops[:d[0] + 1]) if d else None
 
 
+def explore_loaded(rng, out, n):
+    """'the environment built from the file enforces every rule written in it': for small
+    pattern-rich documents the COMPLETE reachable transition graph of the environment built by
+    nasim.load is compared with the model stepping on the model's reading (load d) of the file"""
+    import explore as ex
+    states = trans = 0
+    for _ in range(n):
+        doc = sd_to_doc(rng, scen.explore_sd(rng))
+        seen, ok, sc = impl_load(doc, "x")
+        if not ok:
+            continue          # reported by the document comparison
+        mo = run_driver([[10, [Transcriber().v(seen)]]])[0][0]
+        if mo == [-1] or not mo[0]:
+            continue
+        sd = scen.scenario_to_sd(sc, strict_keys=True)
+        e = ex.explore(sd, sc, (0, 1, 0), 400)
+        states += e["states"]
+        trans += e["transitions"]
+        recs = [r for r in e["records"] if not dyn.has_bad(r)]
+        model = run_driver([[5, mo[0][0], [0, 1, 0], [[r[0], r[1], r[2]] for r in recs]]])[0]
+        for r, m in zip(recs, model):
+            if [r[3], r[4][0], r[6]] != [m[0], m[4][0], m[2]]:
+                out["violations"].append(dict(
+                    kind="document+step", property="C17", failing_input_found=True, label="explore@random", document=seen,
+                    what="the environment built from this file does not enforce what the file says: for this state, "
+                         "action and draw the real environment and the model of the file's reading disagree on next "
+                         "state / success / reward", record=r, prescribed=[m[0], m[4][0], m[2]]))
+                break
+    out["evaluations"] += trans
+    out["explore_loaded"] = dict(documents=n, states=states, transitions=trans)
+
+
 def run(ctx, spec):
     pid, tier, seed = ctx["pid"], ctx["tier"], ctx["seed"]
     rng = random.Random(seed)
@@ -578,6 +614,8 @@ def run(ctx, spec):
                     if d is not None:
                         items.append((f"{opname}@{name}#{rep}", d))
     meta, outs = compare_docs(items, pid, out, seed, tier, spec, dyn_steps=12 if pid == "C17" else 0)
+    if pid == "C17":
+        explore_loaded(rng, out, 10 if tier == "quick" else 60)
     mine = [v for v in out["violations"] if v["property"] == pid]
     others = [v for v in out["violations"] if v["property"] != pid]
     # keep one witness per mutation kind
@@ -602,6 +640,7 @@ def run(ctx, spec):
     if fails:
         raise RuntimeError("extracted driver and vm_compute disagree on loader commands")
     out["correspondence"] = dict(documents=len(meta), base_documents=len(bases), per_operator=out.pop("stats", {}),
+                                 exhaustive_exploration_of_loaded_documents=out.pop("explore_loaded", None),
                                  skipped_out_of_domain=out.pop("skipped", 0),
                                  skipped_examples=out.pop("skipped_why", [])[:5],
                                  in_kernel_crosscheck=dict(commands=len(cmds), differing=0))
